@@ -163,3 +163,33 @@ def ref_ap(fs, maximize, num_gt, unit_weight=True, thr_of=None):
         ap += (rec[i] - prev) * max(prec[i:])
         prev = rec[i]
     return ap, tps, n_tp
+
+
+LABEL_NAT = {"unknown": 0, "car": 1, "bicycle": 2, "pedestrian": 3, "false_positive": 4, "truck": 5, "bus": 6, "motorbike": 7, "animal": 8}
+
+
+def facts_of_results(results, mode, tp_metrics, rid0=0):
+    """facts for Model/AP.v from real object results of any origin (labels by enum value)"""
+    from perception_eval.evaluation.matching.object_matching import MatchingMode
+
+    mm = MatchingMode[mode]
+    out = []
+    for i, r in enumerate(results):
+        gt = r.ground_truth_object
+        mt = r.get_matching(mm)
+        out.append({
+            "rid": rid0 + i, "conf": r.estimated_object.semantic_score, "has_gt": gt is not None,
+            "gt_fp": bool(gt is not None and gt.semantic_label.is_fp()), "lab_ok": bool(r.is_label_correct),
+            "thr": None, "matching": None if mt is None else {"value": mt.value},
+            "weight": tp_metrics.get_value(r),
+            "est_label": r.estimated_object.semantic_label.label.value,
+            "gt_label": gt.semantic_label.label.value if gt is not None else None,
+        })
+    return out
+
+
+def lres_lit(f):
+    return f"(mkL {res_lit(f)} {LABEL_NAT[f['est_label']]} {olit(f['gt_label'], lambda x: str(LABEL_NAT[x]) + '%nat')})"
+
+
+MODE_BY_VALUE = {"Center Distance": "CENTERDISTANCE", "Plane Distance": "PLANEDISTANCE", "IoU 2D": "IOU2D", "IoU 3D": "IOU3D"}
